@@ -12,7 +12,7 @@ import mc
 from mc.tally import Tally, jsonable
 
 # Runs against a scratch tree (VERIF_REPO) must not overwrite the committed evidence.
-EVIDENCE_DIR = os.path.join(mc.VERIF_DIR, "evidence-scratch" if os.environ.get("VERIF_REPO") else "evidence")
+EVIDENCE_DIR = os.path.join(mc.VERIF_DIR, "evidence-scratch" if (os.environ.get("VERIF_REPO") or os.environ.get("VERIF_SEEDED_EVAL")) else "evidence")
 REPLAY_DIR = os.path.join(mc.VERIF_DIR, "replays")
 KNOWN_FILE = os.path.join(mc.VERIF_DIR, "known_findings.json")
 
